@@ -55,6 +55,12 @@ impl It64 for Borrowed {
     fn next_back(&mut self) -> Option<u64> {
         self.0.next_back()
     }
+    fn nth(&mut self, n: usize) -> Option<u64> {
+        self.0.nth(n)
+    }
+    fn nth_back(&mut self, n: usize) -> Option<u64> {
+        self.0.nth_back(n)
+    }
     fn advance_to(&mut self, n: u64) {
         self.0.advance_to(n)
     }
@@ -81,6 +87,12 @@ impl It64 for Owned {
     }
     fn next_back(&mut self) -> Option<u64> {
         self.0.next_back()
+    }
+    fn nth(&mut self, n: usize) -> Option<u64> {
+        self.0.nth(n)
+    }
+    fn nth_back(&mut self, n: usize) -> Option<u64> {
+        self.0.nth_back(n)
     }
     fn advance_to(&mut self, _n: u64) {}
     fn advance_back_to(&mut self, _n: u64) {}
@@ -256,6 +268,14 @@ pub fn handle(st: &mut State, toks: &[&str]) -> HResult {
         }
         ["jnext", k] => Some(show_opt(j!(k).next())),
         ["jnext_back", k] => Some(show_opt(j!(k).next_back())),
+        ["jnth", k, n] => {
+            let n: u64 = n.parse().ok()?;
+            Some(show_opt(j!(k).nth(n as usize)))
+        }
+        ["jnth_back", k, n] => {
+            let n: u64 = n.parse().ok()?;
+            Some(show_opt(j!(k).nth_back(n as usize)))
+        }
         ["jadvance_to", k, v] => {
             let it = j!(k);
             let v: u64 = v.parse().ok()?;
